@@ -7,7 +7,8 @@ each property per execution (held / violated / inconclusive).
 import os
 import sys
 
-REPO_SRC = '/repo/src'
+# /repo/src always, except in tools/selftest.py which points the monitors at a scratch worktree carrying a mutant
+REPO_SRC = os.environ.get('PVMON_REPO_SRC', '/repo/src')
 VERIF_DIR = os.path.dirname(os.path.dirname(os.path.abspath(__file__)))
 
 
